@@ -153,11 +153,14 @@ func c11Body(c *run.Ctx) {
 		Mem:          sim.MemOpts{NewPlayer: 3, Rebuy: 4, Leave: 1, KeepSitting: 10, MaxNewID: 12, TopupAnyone: true},
 		RearmOnLeave: true,
 	}
-	o.AfterHand = func(s *sim.Sim, h *sim.Hand) {
-		if h.Opened != nil && h.SettledT == nil {
-			// every response was given, every action was legal: the hand must finish
+	o.OnStall = func(s *sim.Sim, h *sim.Hand) {
+		if h.Opened != nil && h.SettledT == nil && h.Outcome != "open-refused" {
+			// every response was given (or refused although the hand asked for it), every action
+			// was legal: the hand must finish
 			c.Failf("C11.hand-did-not-finish", "hand %d (%d participants) stopped advancing although everything asked was answered: %s", h.N, len(h.M), s.Stall)
 		}
+	}
+	o.AfterHand = func(s *sim.Sim, h *sim.Hand) {
 		if h.SettledT == nil {
 			return
 		}
